@@ -15,12 +15,12 @@ MCNext == Next /\ ideal' = IdealOf(log', applied', snap')
 MCSpec == MCInit /\ [][MCNext]_<<vars, ideal>>
 
 \* the part of the state the future depends on (acked / last / ideal are history)
-View == <<log, up, applied, fsm, inited, snap, cnt>>
+View == <<log, up, applied, fsm, inited, snap, broken, cnt>>
 
 \* no Ack steps when generating replay scripts for the FSM seam
 GenNext ==
     /\ \/ \E op \in Ops : Commit(op)
-       \/ \E p \in Peers : ApplyNext(p) \/ TakeSnapshot(p) \/ Shutdown(p) \/ Kill(p) \/ Restart(p)
+       \/ \E p \in Peers : ApplyNext(p) \/ ApplyFails(p) \/ TakeSnapshot(p) \/ Shutdown(p) \/ Kill(p) \/ Restart(p)
        \/ \E p, q \in Peers : InstallSnapshot(p, q)
     /\ ideal' = IdealOf(log', applied', snap')
 GenSpec == MCInit /\ [][GenNext]_<<vars, ideal>>
@@ -28,6 +28,8 @@ GenSpec == MCInit /\ [][GenNext]_<<vars, ideal>>
 (* Reachability goals, stated negated as action properties: TLC's          *)
 (* counterexample is a witness behaviour that is replayed on the real code. *)
 allvars == <<vars, ideal>>
+NoApplyAfterFault ==        \* a replica goes on applying after one of its applies failed (the store has a hole)
+    [][~(\E p \in Peers : ApplyNext(p) /\ broken[p])]_allvars
 NoInstallOverDeleted ==     \* a snapshot installed on a replica holding a since-unpinned CID
     [][~(\E p, q \in Peers : InstallSnapshot(p, q)
             /\ \E c \in Cids : fsm[p][c] # NONE /\ snap[q].data[c] = NONE)]_allvars
